@@ -148,7 +148,31 @@ ADD = {
  "C19": " Keybase histories include updates to the empty passphrase followed by signing under the new and the old passphrase.",
  "C20": " Also: integers that were never set go through JSON and back; wrong-length keys under a key-type tag must be refused; Dec text round trip proved for every value.",
 }
+RS = " The observed instance itself is stopped and reopened from its database after random Commits (to the model the identity), so everything compared also covers what survives a restart."
+ADD4 = {
+ "C01": " The consensus-parameter twin is also run with read-only traffic interleaved (a gas meter shared between CheckTx and DeliverTx shows there)." + RS,
+ "C02": " A third denomination that sorts after the staking one; accounts that hold nothing else." + RS,
+ "C03": " secp256k1 signers; signatures with one byte more, one less, one bit flipped; multisignature slots signed by another key, left empty, all left empty, one byte longer; memos changed after signing in white space only." + RS,
+ "C04": " Awards queued for nobody's address, for module addresses and for longer addresses (an award to the pool's own address is a gift, as in the theorem's hypothesis)." + RS,
+ "C05": " The guard in front of InitChain: a genesis file that repeats a validator key, at any position, must be refused by ValidateGenesis (control: the same file without the repeated entry is accepted)." + RS,
+ "C06": RS, "C07": RS,
+ "C08": " The stored key of a window position (GetValMissedBlockKey) is compared with the model's missed_key - proved injective - for positions over the whole int64 range, and two positions with one key are searched for directly: a window longer than any history the driver can run still has one key per position." + RS,
+ "C09": " Directed: the minimum stake is raised just above a jailed, still staked validator; when its term is over its unjail must be refused." + RS,
+ "C10": RS,
+ "C11": " Under consensus parameters that admit ed25519 validator keys only (a third of the histories; model deliver_tx_cp, App/KeyTypes.v, proved equal to deliver_tx without the restriction): a first-time stake under another key type passes the ante handler, pays its fee and leaves nothing else (C11_cp_refuses_other_key_types, C11_cp_handler_err_pays_fee_only). Parameter keys of unknown subspaces, recipients of unusual address length; a process that ends inside DeliverTx is reported with the transaction." + RS,
+ "C12": " Stores mounted on databases of their own; the pruning policy enters the model as the numbers the harness chose, never as read back through the accessors the stores use.",
+ "C13": " Also through the whole application (engine app): every history is replayed on an instance whose process dies at a random database write of a random Commit; it is reopened, must stand at the complete previous or the complete new height, the interrupted block is executed again and every response and the app hash must equal the uninterrupted run's - with and without genesis consensus parameters.",
+ "C14": " Through BaseApp also right after Commits (block 1 included): the default-height and the explicit-height query without proof against a direct read of the live store.",
+ "C15": " The cache multistore's own Write, also with store keys of the transient kind.",
+ "C16": " A tracing context as BaseApp builds it (block height at construction, transaction hash added to the branch): every later trace record must carry both.",
+ "C17": " Messages handed to the governance handler directly (the sender need not hold a key): the owner, a stranger, and addresses differing from the owner's in the case of one letter or in one byte that is no valid text - the model runs handle alone. DAO messages from the owner of the gov/daoOwner PARAMETER (not the DAO owner) must be refused." + RS,
+ "C18": " The text form of Dec (String / NewDecFromStr) against the model's dec_to_text / text_to_dec, magnitudes below one of either sign included; Uint.Mul with bit lengths adding up to 255..258; RoundInt64 / TruncateInt64 around +-2^63 at and beside the tie.",
+ "C19": " Messages of 4096, 4097 and 70000 bytes with their SHA-256/512 digests as other messages; empty and one-byte-longer signature slots; a second keybase history on the on-disk keybase behind its open-per-call wrapper; signing after every import under the new and under the armor's passphrase.",
+ "C20": " Hostile JSON tokens (one value of a good document replaced by a short token of another shape) through amino-JSON of every type and the key types' own UnmarshalJSON; the verifier's sign bytes (ante handler's GetSignBytes on the decoded transaction) must equal the signer's; memos with surrounding white space; window-position keys.",
+}
 for _k, _v in ADD.items():
+    CLAIMED[_k]["text"] = CLAIMED[_k]["text"] + _v
+for _k, _v in ADD4.items():
     CLAIMED[_k]["text"] = CLAIMED[_k]["text"] + _v
 
 REASON_NOT_YET = "check not built yet in this round (design in DESIGN.md §6); will be claimed once its model, theorems and correspondence engine exist"
@@ -183,13 +207,13 @@ def main():
         "engines": [
             {"name": "num", "path": "harness/cmd/num", "serves_properties": ["C18", "C20"],
              "kind_free_text": "differential run of types.Int/Uint/Dec/Coins against the extracted Coq model and exact specs"},
-            {"name": "app", "path": "harness/cmd/app", "serves_properties": ["C01","C02","C03","C04","C05","C06","C07","C08","C09","C10","C11","C14","C17"],
+            {"name": "app", "path": "harness/cmd/app", "serves_properties": ["C01","C02","C03","C04","C05","C06","C07","C08","C09","C10","C11","C13","C14","C17"],
              "kind_free_text": "real BaseApp+auth+pos+gov on MemDB driven through ABCI with an emulated Tendermint set; state decoded from raw stores after every op; compared with the extracted L1 model and checked by property oracles"},
             {"name": "ms", "path": "harness/cmd/ms", "serves_properties": ["C12","C13","C14","C01"],
              "kind_free_text": "rootmulti+iavl+transient over a crash-instrumented MemDB: write/commit/reopen/LoadVersion/query histories, crash after every write unit, uninterrupted twin"},
             {"name": "keys", "path": "harness/cmd/keys", "serves_properties": ["C19"],
              "kind_free_text": "real keys, nested multisig verification with mutated signature trees, keybase op histories vs the ideal-primitive model"},
-            {"name": "codec", "path": "harness/cmd/codec", "serves_properties": ["C20"],
+            {"name": "codec", "path": "harness/cmd/codec", "serves_properties": ["C20","C08","C18"],
              "kind_free_text": "amino binary/JSON round trips of all wire and storage types, sign-bytes canonicity and sensitivity, random/mutated bytes through every decoder and CheckTx/DeliverTx, key builders, uvarint frames and canonical JSON vs the extracted byte-level model"},
             {"name": "lin", "path": "harness/cmd/lin", "serves_properties": ["C15"],
              "kind_free_text": "schedule-directed concurrency: a reader held open inside the parent read while a writer runs on the same cachekv wrapper; every outcome must equal one of the two sequential orders on the proved model"},
